@@ -4,6 +4,7 @@ From Coq Require Import Bool List NArith ZArith Lia.
 From M Require BufProofs.
 From M Require FpStr.
 From M Require IntFmtProofs.
+From M Require Tie.
 From M Require BufModel.
 From M Require FmtModel.
 From M Require GFmt.
@@ -89,4 +90,13 @@ Theorem C15_int2str_exact :
 Proof. exact (@IntFmtProofs.int2str_exact). Qed.
 End T_int2str_exact.
 Definition C15_int2str_exact := @T_int2str_exact.C15_int2str_exact.
+
+Module T_tie_float_formats. Import Tie. Local Open Scope bool_scope. Local Open Scope Z_scope.
+Local Open Scope Z_scope.
+Theorem C15_tie_float_formats :
+  Generated.gen_double_fmt = [115;110;112;114;105;110;116;102;40;40;115;41;44;32;40;108;41;44;32;34;37;46;49;53;108;103;34;44;32;40;118;41;41]%N /\
+  Generated.gen_float_fmt = [115;110;112;114;105;110;116;102;40;40;115;41;44;32;40;108;41;44;32;34;37;103;34;44;32;40;118;41;41]%N.
+Proof. exact (@Tie.tie_float_formats). Qed.
+End T_tie_float_formats.
+Definition C15_tie_float_formats := @T_tie_float_formats.C15_tie_float_formats.
 
